@@ -292,6 +292,12 @@ def run(ctx):
                 a0 = strip_cast(ig.rarg(v_, 0))
                 if not (isinstance(a0, dict) and a0.get("k") == "l" and a0.get("id") == v.get("id")):
                     ok, why = False, "the length prefix is sized from something other than the payload size"
+                # ... and from the payload size alone: nothing may have been added to it before the prefix is sized
+                for n in ig.ev_nodes(lambda n: n.id in live and n.ev["e"] == "asg" and n.ev.get("op") == "+="):
+                    tgt = strip_cast(n.ev.get("lhs"))
+                    if isinstance(tgt, dict) and tgt.get("k") == "l" and tgt.get("id") == v.get("id") and \
+                            v_.id in ig.reach([n], include_starts=False) and ig.ev_of(strip_cast(ig.resolve(n.ev.get("rhs"), n.frame))) is not v_:
+                        ok, why = False, "the length prefix is sized after something (the tag size) was already added to the payload size"
         # a zero payload is reported as zero bytes for tagged fields (the writer skips empty fields)
         if tagged:
             def zero(atom, pol, lab):
